@@ -3,6 +3,7 @@ import itertools
 import numpy as np
 from common import *
 import gen
+from algos import give_a_past, random_past
 from corankco.dataset import Dataset
 from corankco.ranking import Ranking
 from corankco.scoringscheme import ScoringScheme
@@ -53,26 +54,45 @@ class Table(Suite):
         n = 400 if tier == "quick" else 5000
         for _ in range(n):
             cases.append({"s": gen.pick_scheme(rng), "D": gen.random_dataset(rng, 8, 6)})
+        # datasets with a past: every view read and algorithms run, then elements / empty rankings removed IN PLACE; the table judged is
+        # the one handed to the algorithms afterwards, against the dataset as it is then
+        for _ in range(60 if tier == "quick" else 800):
+            D = gen.random_dataset(rng, 7, 5)
+            if rng.random() < 0.4:
+                D = D + [[]] * rng.randint(1, 2)
+                rng.shuffle(D)
+            cases.append({"s": gen.pick_scheme(rng), "D": D, "past": random_past(rng, D)})
         # candidates: random complete rankings over the universe
         for c in cases:
             univ = sorted({e for r in c["D"] for b in r for e in b})
+            if c.get("past"):
+                univ = [e for e in univ if e not in c["past"]["remove"]] or univ
             c["cands"] = [gen.random_ranking(rng, univ, 1.0, rng.choice([1.0, 0.6, 0.3])) for _ in range(2)]
         return cases
 
     def run(self, case):
         ds = Dataset.from_raw_list([[set(b) for b in r] for r in case["D"]])
         sc = ScoringScheme(case["s"])
+        if case.get("past"):
+            give_a_past(ds, case["past"], sc)
         P = ds.get_positions()
         B = ds.get_bucket_ids()
         MP = PairwiseBasedAlgorithm.pairwise_cost_matrix(P, sc)
         MB = PairwiseBasedAlgorithm.pairwise_cost_matrix(B, sc)
         k = KemenyComputingFactory(sc)
-        scores = [to_units(k.get_kemeny_score(Ranking([set(b) for b in c]), ds)) for c in case["cands"]]
-        return {"listing": gen.observe(ds), "U": gen.id_order(ds), "P": P.tolist(), "B": B.tolist(),
+        cands = case["cands"]
+        if case.get("past"):
+            # the universe is what the past left: candidates over it (derived from the case alone, so that a replay is identical)
+            import random as _random
+            r2 = _random.Random(canon_hash(case["D"]))
+            univ = sorted(e.value for e in ds.universe)
+            cands = [gen.random_ranking(r2, univ, 1.0, r2.choice([1.0, 0.6, 0.3])) for _ in range(2)]
+        scores = [to_units(k.get_kemeny_score(Ranking([set(b) for b in c]), ds)) for c in cands]
+        return {"cands": cands, "listing": gen.observe(ds), "U": gen.id_order(ds), "P": P.tolist(), "B": B.tolist(),
                 "MP": units_matrix(MP.tolist()), "MB": units_matrix(MB.tolist()), "scores": scores}
 
     def term(self, case, out):
-        cands = clist([f"({ranking_term(c)}, {z(sc)})" for c, sc in zip(case["cands"], out["scores"])])
+        cands = clist([f"({ranking_term(c)}, {z(sc)})" for c, sc in zip(out["cands"], out["scores"])])
         return (f"(mkC02 {scheme_term(case['s'])} {dataset_term(out['listing'])} {natlist(out['U'])} "
                 f"{zmat_term(out['P'])} {zmat_term(out['B'])} {triple_mat_term(out['MP'])} {triple_mat_term(out['MB'])} {cands})")
 
